@@ -112,7 +112,7 @@ def gen(rng, tier):
     for n in range(1, 3):
         for t in itertools.product(big, repeat=n):
             yield line(t)
-    count = 300 if tier == "quick" else 4000
+    count = 700 if tier == "quick" else 4000
     hi = 60 if tier == "quick" else 200
     for i in range(count):
         n = rng.randint(20, hi)
